@@ -27,6 +27,7 @@ LIST_SCHEMAS = [
     "schema.list([schema.dict({'a': schema.int}), ...])", "schema.list([..., schema.dict({'a': schema.int}), ...])",
     "schema.list(schema.list(schema.int))", "schema.list(schema.any(schema.int, schema.str))",
     "schema.list([..., schema.list([schema.int, ...]), ...])",
+    "schema.list([..., schema.dict({'a': schema.int, 'b': schema.int}), ...])",
 ]
 DICT_SCHEMAS = [
     "schema.dict", "schema.dict({})", "schema.dict({'a': schema.int})", "schema.dict({'a': schema.int, 'b': schema.str})",
@@ -48,11 +49,11 @@ ANY_SCHEMAS = [
     "schema.alias('d', schema.dict({'a': schema.int, optional('b'): schema.str}))", "schema.alias('l', schema.list(schema.int))",
 ]
 SCALAR_VALUES = ["{...: 1}", "0", "1", "-1", "'x'", "''", "None", "True", "1.5", "b'b'", "object()", "(1,)", "{1}"]
-LIST_VALUES = ["[]", "[1]", "[1, 'x']", "['x', 1]", "[1, 2]", "[1, 2, 3]", "[0, 1, 'x', 2]", "['a', 1, 'x']", "[1, 'x', 'y']",
+LIST_VALUES = ["[{'a': 1}, {'a': 1, 'b': 2}]", "[]", "[1]", "[1, 'x']", "['x', 1]", "[1, 2]", "[1, 2, 3]", "[0, 1, 'x', 2]", "['a', 1, 'x']", "[1, 'x', 'y']",
                "[{'a': 1}]", "[{'a': 1, 'b': 'q'}]", "[{'a': 'bad'}]", "[{'a': 1, 'zz': 0}]", "[{}]", "[[1], [2, 3]]", "[[1, 'x']]",
                "[object()]", "[1, object()]", "[{1: object()}]", "[-1]", "[None]", "[[1, 2], 5]", "[5, [1, 2], 6]", "[{'a': 1}, 3]",
                "[3, {'a': 1}, 4]", "[...]", "[1, ...]", "[..., 1]", "[..., 1, ...]", "[1, ..., 'x']", "(1, 2)", "'ab'"]
-DICT_VALUES = ["{'a': {...: 1}}", "{'q': {...: ...}}", "{'a': [{...: 1}]}", "{'a': 'AB-12', 'b': 'xy'}", "{'a': 5, 'b': 'axb'}", "{}", "{'a': 1}", "{'a': 1, 'b': 'x'}", "{'b': 'x'}", "{'a': 'bad'}", "{'a': 1, 'zz': 0}", "{'zz': 0}", "{'a': {'x': 1}}",
+DICT_VALUES = ["{'a': 1, 'b': 2}", "{'a': {...: 1}}", "{'q': {...: ...}}", "{'a': [{...: 1}]}", "{'a': 'AB-12', 'b': 'xy'}", "{'a': 5, 'b': 'axb'}", "{}", "{'a': 1}", "{'a': 1, 'b': 'x'}", "{'b': 'x'}", "{'a': 'bad'}", "{'a': 1, 'zz': 0}", "{'zz': 0}", "{'a': {'x': 1}}",
                "{'a': {'x': 1, 'y': 'q'}, 'b': 2}", "{'a': {}}", "{'a': {'x': 1, 'q': 0}}", "{'a': {'x': 'bad'}}", "{'a': [1, 2], 'b': ['s']}",
                "{'a': [1, 'x']}", "{'a': 1, 'b': 1.04}", "{'a': 1, 'b': 1.0}", "{1: 5, None: 's'}", "{1: 5}", "{'a': object()}",
                "{'q': object()}", "{'a': {'x': object()}}", "{'c': None}", "{'a': 1, ...: ...}", "{'a': ...}", "{...: ...}",
@@ -88,8 +89,10 @@ def repr_cases():
 def classify(detail: str) -> str:
     """a coarse signature of a failure, used to key listed known findings"""
     d = detail
-    if d.startswith("v conforms to S but S % v") and "schema.any(" in d:
+    if d.startswith("v conforms to S but S % v = schema.any("):
         return "any-falls-back-to-an-alternative-the-value-does-not-conform-to"
+    if d.startswith("v conforms to S but S % v = schema.list(") and "Missing" in d:
+        return "contains-list-substitutes-at-a-partially-matching-position"
     for needle, sig in (("returned a schema that cannot be used", "placeholder-kept-as-member-schema"),
                         ("AttributeError(\"'ellipsis' object has no attribute '__accept__'\")", "list-contains-fallthrough-AttributeError"),
                         ("DeclarationError", "leaks-DeclarationError"),
